@@ -262,6 +262,27 @@ def run_case(case) -> Result:
                     if b[0] - a[0] < timeout - 1e-6:
                         res.fail(f"C06|attempt-overlap|{rec['kind']}", f"{name}: attempts {b[0] - a[0]:.3f}s apart (timeout {timeout})")
                         break
+                # ... and a retry follows its predecessor after the timeout and the pause, not later (a request kind that carries a
+                # longer timeout of its own would hold the engine - and everybody queued behind it - that much longer)
+                for a, b in zip(sends, sends[1:] if rec["kind"] != "refresh" else []):
+                    if b[0] - a[0] > timeout + pause + 3 * (vworld.POLL + J) + 0.01:
+                        res.fail(f"C06|attempt-late|{rec['kind']}", f"{name}: attempts {b[0] - a[0]:.3f}s apart, timeout {timeout} + pause {pause}")
+                        break
+                # (judged only when nothing stale can be queued: no caller cancelled mid-answer, no duplicated / delayed / swapped
+                # datagrams - a left-over final segment of an older answer legitimately ends the attempt that meets it)
+                clean_stream = not cancelled_ix and not noise and all(a_ in ("deliver", "drop") for a_ in clients.decode_tape(case.get("s2c", [])))
+                if rec["kind"] == "refresh" and clean_stream:
+                    # a status attempt may end early, but only once the spa has finished the previous answer (its final segment was
+                    # delivered): a new request while the old answer is still streaming means two requests in flight
+                    for a, b in zip(sends, sends[1:]):
+                        if b[0] - a[0] >= timeout - 1e-6:
+                            continue
+                        finals = [t_ for t_, _, d_ in deliv if a[0] < t_ <= b[0] + 1e-9 and b"<DATAS>STATV" in d_
+                                  and d_[d_.index(b"<DATAS>STATV") + 13] == 0]
+                        if not finals:
+                            res.fail("C06|attempt-overlap|refresh", f"{name}: status request re-sent {b[0] - a[0]:.3f}s after the previous one although "
+                                     f"neither the timeout ({timeout}) had passed nor the final segment of the previous answer had arrived")
+                            break
                 dur = win["released"] - win["acquired"]
                 bound = retry * (timeout + pause) + retry * 2 * (vworld.POLL + J) + 0.01
                 if rec["kind"] == "refresh":
